@@ -548,3 +548,17 @@ Proof.
       rewrite parse_dec_of_N, Hlen. reflexivity.
     + rewrite (Hempty eq_refl) in *. cbn [app]. apply h1_roundtrip_nobody; assumption.
 Qed.
+
+(* ---------- tables regenerated from the source (gosync): a changed table breaks these ---------- *)
+From ReqV Require Import Gen.C01Tables.
+
+Definition in_src_ranges (c : byte) : bool :=
+  existsb (fun r => (fst r <=? bN c)%N && (bN c <=? snd r)%N) keep_escapes_ranges.
+
+(* the byte set parseURLKeepEscapes leaves as written is exactly what URL.EscapedPath accepts *)
+Theorem keep_escapes_table_matches : forall c,
+  valid_encoded_byte EPath c = in_src_ranges c || mem_byte c keep_escapes_plain.
+Proof. intros c. destruct c; vm_compute; reflexivity. Qed.
+
+Theorem json_content_type_matches : json_ct = json_content_type_src.
+Proof. vm_compute. reflexivity. Qed.
